@@ -40,6 +40,7 @@ from mashumaro.core.meta.helpers import (
     is_named_tuple,
     is_new_type,
     is_not_required,
+    is_optional,
     is_readonly,
     is_required,
     is_special_typing_primitive,
@@ -386,6 +387,16 @@ def on_type_with_overridden_serialization(
             if new_type is instance.type:
                 return None
             else:
+                if is_optional(instance.type):
+                    # None in an Optional field is emitted as is,
+                    # without calling the overridden method
+                    instance.update_type(new_type)
+                    return JSONSchema(
+                        anyOf=[
+                            get_schema(instance, ctx),
+                            JSONSchema(type=JSONSchemaInstanceType.NULL),
+                        ]
+                    )
                 instance.update_type(new_type)
         except Exception as e:
             override_with_any(e)
